@@ -161,4 +161,23 @@ CHECKS = {
              "thorough": {"checks": 3000, "shards": 4, "timeout": "60m"}},
         ],
     },
+    "C17": {
+        "level": "exploration",
+        "assumptions": EXPLORATION_ASSUMPTIONS + ["the scripted server model decides which nick the server currently uses for the client; Config().Me is read before Me() because Me() repairs it from the tracker"],
+        "legs": [
+            {"test": "TestC17_DefaultNewNick", "quick": {"checks": 100000, "timeout": "10m"}, "thorough": {"checks": 1000000, "shards": 2, "timeout": "30m"}},
+            {"test": "TestC17", "quick": {"checks": 1000, "timeout": "15m"},
+             "thorough": {"checks": 15000, "shards": 4, "timeout": "60m"}},
+        ],
+    },
+    "C19": {
+        "level": "exploration",
+        "assumptions": EXPLORATION_ASSUMPTIONS + ["the negotiation model (capModel in c19_test.go) is written from the property statement; REQ is compared as a set across lines",
+                                                  "the enumerated part is exhaustive over the stated small universe (evidence: exhaustive_enum, enum_sessions)"],
+        "legs": [
+            {"test": "TestC19_Enum", "quick": {"shards": 4, "timeout": "15m"}, "thorough": {"shards": 4, "timeout": "15m"}},
+            {"test": "TestC19", "quick": {"checks": 300, "timeout": "15m"},
+             "thorough": {"checks": 5000, "shards": 4, "timeout": "60m"}},
+        ],
+    },
 }
